@@ -227,6 +227,7 @@ def run(chk):
     finally:
         shutil.rmtree(wd, ignore_errors=True)
     heap_part(chk, binary)
+    listener_part(chk)
     chk.parts["hostile"] = stats
     i = len(cases) // 2
     chk.sample({"case": cases[i]["name"], "result": {k: rows[i].get(k) for k in ("injected", "emitted", "queueMax", "quiet", "targetAlive", "completed", "pingPong", "sample")}})
@@ -270,8 +271,52 @@ def heap_part(chk, binary):
     chk.parts["heap"] = {r["name"]: r["growthKB"] for r in rows}
 
 
+def listener_part(chk):
+    """(D) the demultiplexer behind dtls.Listen (spec/ListenerBacklog.tla): what first datagrams of unknown addresses make the
+    listener keep is bounded by the accept backlog, every entry is reachable, a turned-away address is served later."""
+    from checks import c15
+    for b in (1, 2):
+        chk.add_tlc("listener.mc%d" % b, vlib.tlc_check("ListenerBacklog", "ListenerBacklog.mc%d.cfg" % b, timeout=600))
+    vlib.tlc_expect_violation("ListenerBacklog", "ListenerBacklog.entryfirst.cfg", "UnownedBounded (table entry made before the backlog check)",
+                              timeout=300)
+    scripts = []
+    for b in (1, 2):
+        gen = vlib.tlc_generate("ListenerBacklog", "ListenerBacklog.gen%d.cfg" % b, timeout=300)
+        chk.add_tlc("listener.gen%d" % b, gen)
+        scripts += [{"backlog": b, "steps": g["steps"]} for g in gen.printed if g["steps"]]
+    if len(scripts) < 300:
+        raise vlib.Inconclusive("too few listener backlog scripts (%d)" % len(scripts))
+    rows, summ = c15.run_simple(vlib.build("udp"), "TestVerifBacklogScripts", scripts, "listener backlog")
+    if summ.get("scripts") != len(scripts) or summ.get("lab", 0) > 3:
+        raise vlib.Inconclusive("listener backlog replay incomplete: %s" % summ)
+    ndiv = 0
+    for r in rows:
+        for v in (r.get("violations") or [])[:1]:
+            chk.violation({"kind": "listener-backlog", "what": v, "lscript": scripts[r["script"]]})
+        if r.get("diverge") and not r.get("violations"):
+            ndiv += 1
+            if ndiv <= 3:
+                chk.note("DIVERGENCE model/code (listener backlog script %d): %s" % (r["script"], r["diverge"][0]))
+    if ndiv > len(scripts) // 10 and not chk.violations:
+        raise vlib.Inconclusive("listener backlog: %d of %d scripts diverge from the model" % (ndiv, len(scripts)))
+    if summ.get("served", 0) < len(scripts) // 2:
+        raise vlib.Inconclusive("vacuous listener backlog replay: %s" % summ)
+    chk.traces(len(scripts))
+    chk.evaluated(n=summ.get("steps", 0))
+    for sc in scripts:
+        chk.distinct.add("lb%d" % sc["backlog"] + json.dumps([(x["op"], x["a"]) for x in sc["steps"]]))
+    chk.parts["listener_backlog"] = dict(summ, diverged=ndiv)
+
+
 def replay(chk, path):
     facts = json.load(open(path))
+    if "lscript" in facts:
+        from checks import c15
+        chk.evaluated(key="replay")
+        rows, _ = c15.run_simple(vlib.build("udp"), "TestVerifBacklogScripts", [facts["lscript"]], "listener backlog")
+        if any(r.get("violations") for r in rows):
+            chk.violation(dict(facts, replayed=True), replay=path)
+        return
     binary = vlib.build("root")
     if facts.get("kind") == "memory-retained":
         chk.evaluated(key="replay")
